@@ -232,7 +232,7 @@ package spine
 // world and (un)subscribe handlers, but cannot reach the private snapshot Publish iterates over.
 //@ iface api.EventHandlerInterface.HandleEvent
 //@   ensures dn == old(dn) + 1 && dh == store(old(dh), old(dn), self) && dp == store(old(dp), old(dn), p0) && dsp == store(old(dsp), old(dn), spawnn)
-//@   modifies dn, dh, dp, dsp, world, Events.handlers, outmisc
+//@   modifies dn, dh, dp, dsp, world, Events.handlers, outmisc, @NTLOG
 
 //@ func (*events).subscribe
 //@   requires r != nil
@@ -485,7 +485,6 @@ package spine
 //@ define entAt(e, id) = deepEqual(id, e.Address().Entity)
 //@ func (*DeviceLocal).FeatureByAddress
 //@   requires r != nil && address != nil
-//@   requires[C07] entNN(r) && !held(r.mux)
 //@   let L0 = r.entities
 //@   defines[] iface-view: result == asIface(r, api.DeviceLocalInterface).FeatureByAddress(address)
 //@   ensures[C07] unknown-entity: (forall i int :: 0 <= i && i < len(L0) ==> !entAt(L0[i], address.Entity)) ==> result == nil
@@ -556,7 +555,7 @@ package spine
 //@   ensures[C01] error-silent: result != nil ==> respSame && result.ErrorNumber != model.ErrorNumberTypeNoError
 //@   ensures[C01] replied: result == nil ==> respAppended(S, K) && rcls[S][K] == model.CmdClassifierTypeReply && answers(S, K, requestHeader, r.address) && sendfails == old(sendfails)
 //@   ensures[C01] fails-counted: sendfails >= old(sendfails)
-//@   modifies @RESP, outmisc, sendfails
+//@   modifies @RESP, outmisc, sendfails, @NTLOG
 
 //@ func (*FeatureLocal).processNotify
 //@   requires r != nil && featureRemote != nil
@@ -656,7 +655,7 @@ package spine
 //@   ensures[C12] one-error: old(PENDK(r, ski, MC)) && sendfails == old(sendfails) ==> respAppended(S, K) && rcls[S][K] == model.CmdClassifierTypeResult && answers(S, K, msg.RequestHeader, r.address) && rerr[S][K] != model.ErrorNumberTypeNoError
 //@   ensures[C12] already-decided: !old(PENDK(r, ski, MC)) ==> respSame && sendfails == old(sendfails)
 //@   ensures[C12] not-applied: wapplied == old(wapplied)
-//@   modifies map(gomap[string]map[model.MsgCounterType]*time.Timer), map(gomap[model.MsgCounterType]*time.Timer), @RESP, outmisc, sendfails, held
+//@   modifies map(gomap[string]map[model.MsgCounterType]*time.Timer), map(gomap[model.MsgCounterType]*time.Timer), @RESP, outmisc, sendfails, held, @NTLOG
 
 //@ func[C01] (*FeatureLocal).HandleMessage impl:api.FeatureLocalInterface.HandleMessage safety-root
 //@   assumes r != nil && r.Feature != nil && r.address != nil && r.responseMsgCallback != nil && r.entity != nil && r.pendingWriteApprovals != nil && r.writeApprovalReceived != nil && (forall k string :: has(r.pendingWriteApprovals, k) ==> r.pendingWriteApprovals[k] != nil)
@@ -679,7 +678,7 @@ package spine
 //@   let K = rn[deviceRemote.Sender()]
 //@   ensures[C01] replied: result == nil ==> oneReply(deviceRemote.Sender(), K, requestHeader)
 //@   ensures[C01] error-silent: result != nil ==> respSame && sendfails >= old(sendfails)
-//@   modifies @RESP, outmisc, sendfails, held
+//@   modifies @RESP, outmisc, sendfails, held, @NTLOG
 
 //@ func (*NodeManagement).processReplyDetailedDiscoveryData
 //@   requires r != nil && message != nil
@@ -704,21 +703,21 @@ package spine
 //@   let K = rn[nmS]
 //@   ensures[C01,C08] replied: result == nil ==> oneReply(nmS, K, message.RequestHeader)
 //@   ensures[C01] error-silent: result != nil ==> respSame && sendfails >= old(sendfails)
-//@   modifies @RESP, outmisc, sendfails, held
+//@   modifies @RESP, outmisc, sendfails, held, @NTLOG
 
 //@ func (*NodeManagement).processReadBindingData
 //@   requires NMREQ
 //@   let K = rn[nmS]
 //@   ensures[C01,C09] replied: result == nil ==> oneReply(nmS, K, message.RequestHeader)
 //@   ensures[C01] error-silent: result != nil ==> respSame && sendfails >= old(sendfails)
-//@   modifies @RESP, outmisc, sendfails, held
+//@   modifies @RESP, outmisc, sendfails, held, @NTLOG
 
 //@ func (*NodeManagement).processReadUseCaseData
 //@   requires r != nil && r.FeatureLocal != nil && r.FeatureLocal.Feature != nil && r.FeatureLocal.address != nil && featureRemote != nil && requestHeader != nil && requestHeader.AddressDestination != nil
 //@   let K = rn[featureRemote.Device().Sender()]
 //@   ensures[C01,C20] replied: result == nil ==> oneReply(featureRemote.Device().Sender(), K, requestHeader)
 //@   ensures[C01] error-silent: result != nil ==> respSame && sendfails >= old(sendfails)
-//@   modifies @RESP, outmisc, sendfails
+//@   modifies @RESP, outmisc, sendfails, @NTLOG
 
 //@ func (*NodeManagement).processReplyUseCaseData
 //@   requires r != nil && message != nil && message.FeatureRemote != nil
@@ -730,7 +729,7 @@ package spine
 //@   let K = rn[featureRemote.Device().Sender()]
 //@   ensures[C01] replied: result == nil ==> oneReply(featureRemote.Device().Sender(), K, requestHeader)
 //@   ensures[C01] error-silent: result != nil ==> respSame && sendfails >= old(sendfails)
-//@   modifies @RESP, outmisc, sendfails
+//@   modifies @RESP, outmisc, sendfails, @NTLOG
 
 //@ func[C01] (*NodeManagement).HandleMessage impl:api.FeatureLocalInterface.HandleMessage safety-root
 //@   assumes r != nil && r.FeatureLocal != nil && r.FeatureLocal.Feature != nil && r.FeatureLocal.address != nil && r.FeatureLocal.responseMsgCallback != nil && r.entity != nil
@@ -822,7 +821,7 @@ package spine
 //@   define HBD(k) = setdata[k].(*model.DeviceDiagnosisHeartbeatDataType)
 //@   ensures[C16] ends-only-when-stopped: closed(stopC)
 //@   ensures[C16] lock-released: !held(c.mux)
-//@   modifies tickp, c.heartBeatNum, held, @SETLOG, @PUBLISH, outmisc, world
+//@   modifies tickp, c.heartBeatNum, held, @SETLOG, @PUBLISH, outmisc, world, @NTLOG
 //@   loop 0 invariant period: ticker != nil && tickp[ticker] > 0 && tickp[ticker] <= old(d) && (old(d) > 2000000000 ==> tickp[ticker] == old(d) - 2000000000) && (old(d) <= 2000000000 ==> tickp[ticker] == old(d))
 //@   loop 0 invariant one-refresh-per-tick: setn - S0 == c.heartBeatNum - N0 && setn >= S0
 //@   loop 0 invariant refresh: forall k int :: S0 <= k && k < setn ==> setobj[k] == LF && setfct[k] == model.FunctionTypeDeviceDiagnosisHeartbeatData && typeIs(setdata[k], *model.DeviceDiagnosisHeartbeatDataType) && HBD(k) != nil && HBD(k).HeartbeatCounter != nil && *HBD(k).HeartbeatCounter == N0 + (k - S0) + 1 && HBD(k).HeartbeatTimeout == old(c.heartBeatTimeout) && HBD(k).Timestamp != nil
@@ -841,7 +840,7 @@ package spine
 //@   ensures[C16] auto-start: old(eligible) ==> S1 >= old(spawnn) && spawnn <= S1 + 1 && (spawnn == S1 + 1 ==> spawnfn[S1] == UHD && spawnarg(S1, 0, *HeartbeatManager) == c && spawnarg(S1, 1, chanstruct) == c.stopHeartbeatC && c.stopHeartbeatC != nil && !closed(c.stopHeartbeatC) && (old(c.stopHeartbeatC) != nil ==> closed(old(c.stopHeartbeatC))))
 //@   ensures[C16] no-other-stream: old(eligible) ==> forall d int :: old(spawnn) <= d && d < S1 ==> spawnfn[d] != UHD
 //@   ensures[C16] lock-released: !held(c.mux)
-//@   modifies c.localEntity, c.localFeature, c.heartBeatNum, c.stopHeartbeatC, held, chclosed, spawn, @SETLOG, @PUBLISH, outmisc, world
+//@   modifies c.localEntity, c.localFeature, c.heartBeatNum, c.stopHeartbeatC, held, chclosed, spawn, @SETLOG, @PUBLISH, outmisc, world, @NTLOG
 
 // ---------------------------------------------------------------------------------------
 // local device tree (C07)
@@ -985,7 +984,7 @@ package spine
 // resolution of local entity addresses: the first entity whose address equals the requested one (content equality)
 //@ field[C07,C17] DeviceLocal.entities guarded_by mux
 //@ func (*DeviceLocal).Entity
-//@   requires r != nil && entNN(r) && !held(r.mux)
+//@   requires r != nil
 //@   let L0 = r.entities
 //@   ensures[C07] first-match: result != nil ==> exists i int :: 0 <= i && i < len(L0) && result == L0[i] && entAt(L0[i], id) && forall j int :: 0 <= j && j < i ==> !entAt(L0[j], id)
 //@   ensures[C07] none: result == nil ==> forall i int :: 0 <= i && i < len(L0) ==> !entAt(L0[i], id)
@@ -1006,7 +1005,7 @@ package spine
 //@   define isHeartbeat = r.Feature.role == model.RoleTypeServer && r.Feature.ftype == model.FeatureTypeTypeDeviceDiagnosis && function == model.FunctionTypeDeviceDiagnosisHeartbeatData
 //@   ensures[C07,C16] heartbeat-wired: old(accepted && isHeartbeat) ==> hbsetn == old(hbsetn) + 1 && hbsetmgr[old(hbsetn)] == old(r.entity.HeartbeatManager()) && hbsetfeat[old(hbsetn)] == asIface(r, api.FeatureLocalInterface)
 //@   ensures[C07,C16] not-wired-otherwise: !old(accepted && isHeartbeat) ==> hbsetn == old(hbsetn) && spawnn == old(spawnn) && setn == old(setn)
-//@   modifies map(gomap[model.FunctionType]api.OperationsInterface), hbsetn, hbsetmgr, hbsetfeat, held, chclosed, spawn, @SETLOG, @PUBLISH, outmisc, world
+//@   modifies map(gomap[model.FunctionType]api.OperationsInterface), hbsetn, hbsetmgr, hbsetfeat, held, chclosed, spawn, @SETLOG, @PUBLISH, outmisc, world, @NTLOG
 
 // ---------------------------------------------------------------------------------------
 // notification fan-out (C08, C07)
